@@ -1712,6 +1712,7 @@ func runC07(r *simrt.Run) {
 		c.kindName(), c07id(base.id), len(base.state), c.emptyVals, c.staleAdds, c.histAbsent, c.popPolicy, c.long, c.conc)
 	c.checkFrontier(true)
 
+	var far []*c07ver
 	if c.long {
 		// > 400 distinct identifiers within 360 heights of a moving frontier evict the
 		// first-level cache; versions more than 360 below the frontier take the second level
@@ -1722,7 +1723,9 @@ func runC07(r *simrt.Run) {
 		// re-read some of the earliest (evicted, and by now far) versions
 		for i := 0; i < 4; i++ {
 			t.Span(func() {
-				v := c.openAt(c.chain[1+t.Choose(60)], false)
+				ver := c.chain[1+t.Choose(60)]
+				far = append(far, ver)
+				v := c.openAt(ver, false)
 				c.logf("far view %s", v)
 				c.fullCompare(v, c.histAbsent)
 				c.track(v)
@@ -1740,6 +1743,35 @@ func runC07(r *simrt.Run) {
 		maxSteps = 60
 	}
 	steps := t.Loop(num, den, maxSteps, c.step)
+	if c.long && c.popPolicy != c07PopPolicyNone && len(c.chain) > 2 {
+		// the far versions are opened at the present frontier, the frontier is rolled back and
+		// other commits take its place, and the same versions are opened again
+		t.Span(func() {
+			if c.needReopen {
+				c.reopen(false)
+			}
+			reopenFar := func(when string) {
+				for _, ver := range far {
+					if !c.onChain(ver) || ver == c.frontier() {
+						continue
+					}
+					v := c.openAt(ver, false)
+					c.logf("far view %s %s", v, when)
+					c.fullCompare(v, c.histAbsent)
+					c.r.Probe("far-view-reopened-" + when)
+				}
+			}
+			reopenFar("before-rollback")
+			for i := 0; i < 1+t.Choose(3) && len(c.chain) > 2; i++ {
+				c.opPop()
+			}
+			if c.needReopen && t.Bool() {
+				c.reopen(false)
+			}
+			c.bulk(1 + t.Choose(4))
+			reopenFar("after-rollback-and-recommit")
+		})
+	}
 
 	// final verification: the frontier, every tracked view, some historical versions
 	c.logf("final verification after %d steps: chain length %d", steps, len(c.chain))
